@@ -72,7 +72,7 @@ CHECKS = {
         "run-time Uniform/Discrete/DiscreteRange draws, x constant and switching precondition tables x the complete RNG choice tree: the "
         "exact distribution over (event trace, outcome) equals the reference machine's (pick proportional to weight among enabled, "
         "not-yet-run items; deadlock rejects).",
-        "Trusted: explorer/RngSeam (self-tested), models/stepmachine.py pick rule from statements.rst. Behaviors only (compose blocks not yet).",
+        "Trusted: explorer/RngSeam (self-tested), models/stepmachine.py pick rule from statements.rst. Covers behaviors and compose blocks (choose/shuffle over sub-scenarios).",
         "3/C19",
     ),
     "C11": (
